@@ -16,7 +16,7 @@ func digest(b []byte) []byte {
 // violate the design model.
 func selfTest(ctx *core.Ctx) error {
 	c := &Case{Class: "selftest", Filter: nm("FlateDecode"), Parms: none, BodyGen: "flate-zeros:100000"}
-	good := measure(c, false)
+	good := measure(c, false, true)
 	if good.Outcome != "data" || good.Produced != 100000 {
 		return core.Infra("self-test: base case failed: %+v", good)
 	}
